@@ -186,12 +186,32 @@ def session(impl, rng, n_ops, profile, stats):
         impl.do('set_option 1 1')        # auto-convert
     if profile == 'hooks':
         impl.do('set_destructor 1')
+    if profile == 'structure' and rng.chance(1, 3):
+        # every type of parent (NONE placeholder, the five scalar types, the three aggregates; members of a group and
+        # elements of a list) x named / unnamed child: only aggregates take children
+        impl.do('add / %s 8' % hexs(b'plist'))
+        for t in (0, 2, 3, 4, 5, 6, 1, 7, 8):
+            impl.do('add / %s %d' % (hexs(b'p%d' % t), t)); impl.do('add /0 - %d' % t)
+        for i in range(1, 10):
+            for nm in (hexs(b'kid'), '-'):
+                for ct in (2, 5, 1):
+                    impl.do('add /%d %s %d' % (i, nm, ct)); impl.do('add /0/%d %s %d' % (i - 1, nm, ct))
+            impl.do('length /%d' % i); impl.do('length /0/%d' % (i - 1))
+        impl.do('wf'); impl.do('dump'); count('parent-type-grid')
+        resync()
     for _ in range(n_ops):
         fam = rng.weighted(fams)
         paths = all_paths(root)
         aggs = [(p, n) for p, n in paths if n.ty in (1, 7, 8)]
         scalars = [(p, n) for p, n in paths if n.ty in (0, 2, 3, 4, 5, 6)]
-        if fam == 'add':
+        if fam == 'add' and scalars and rng.chance(1, 12):
+            # a parent that is not an aggregate (a scalar, or a placeholder of type NONE): the call must fail and change nothing
+            p, n = rng.choice(scalars)
+            ty = rng.weighted([(1, 3), (2, 3), (5, 2), (7, 1), (8, 1), (0, 1)])
+            out = impl.do('add %s %s %d' % (pstr(p), hexs(rng.choice([rng.choice(VALID_NAMES), None])), ty))
+            count('add-under-non-aggregate:' + ('ok' if not out.startswith('null') else 'null'))
+            impl.do('wf'); resync()
+        elif fam == 'add':
             # bias toward shallow, not-too-wide parents but let some grow past 16/32 children
             p, n = rng.choice(aggs)
             if len(n.kids) > 40 and rng.chance(3, 4):
